@@ -150,3 +150,67 @@ Theorem C02_bmc_model_exact_current :
       (res = BmcSuccess <-> forall j, (j <= k_max)%nat -> ~ reach_at sy j).
 Proof. exact bmc_model_exact_current. Qed.
 Print Assumptions C02_bmc_model_exact_current.
+
+(** ** the same for the encoding /repo has now (patches 0001-0003)
+
+    [bmc_model3] (Model/Bmc.v) is the loop started from [init_at3] - the step-0 states in the
+    dependency order of their init expressions, init-only signals right before the first state that
+    needs them - and continued with [unroll Fixed].  The hypothesis on the init expressions weakens
+    from [init_reads_ok] to [init_deps_acyclic] (Props/C04.v, [C04_script3_wf]): an init expression
+    may read other states, declared earlier or later, as long as the dependencies are acyclic. *)
+From Patronus Require Import EncodingOrder BmcWitProofs.
+Theorem C02_bmc_model3_exact :
+  forall (solver_sat : list cmd -> list expr -> list expr -> bool),
+    (forall sc asserts assumps,
+        solver_sat sc asserts assumps = true <-> exists sigma0, is_model sc asserts assumps sigma0) ->
+    forall (sy : sys) (nm : expr -> string),
+      sys_wf sy = true -> nodup_exprs (s_inputs sy) = true ->
+      names_ok (enc_new sy nm) = true -> init_deps_acyclic sy ->
+    forall (k_max : nat) (individually : bool),
+      let res := bmc_model3 solver_sat sy nm individually k_max in
+      res <> BmcPanic ->
+      (forall j, res = BmcFail (N.of_nat j) <->
+                 (j <= k_max)%nat /\ reach_at sy j /\ forall m, (m < j)%nat -> ~ reach_at sy m) /\
+      (res = BmcSuccess <-> forall j, (j <= k_max)%nat -> ~ reach_at sy j).
+Proof. exact bmc_model3_exact. Qed.
+Print Assumptions C02_bmc_model3_exact.
+
+Theorem C02_bmc_model3_is_spec :
+  forall (solver_sat : list cmd -> list expr -> list expr -> bool),
+    (forall sc asserts assumps,
+        solver_sat sc asserts assumps = true <-> exists sigma0, is_model sc asserts assumps sigma0) ->
+    forall (sy : sys) (nm : expr -> string),
+      sys_wf sy = true -> nodup_exprs (s_inputs sy) = true ->
+      names_ok (enc_new sy nm) = true -> init_deps_acyclic sy ->
+    forall (k_max : nat) (individually : bool), no_array_init sy = true ->
+      let res := bmc_model3 solver_sat sy nm individually k_max in
+      res <> BmcPanic ->
+      (forall j, res = BmcFail (N.of_nat j) <-> bmc_spec sy k_max = Some j) /\
+      (res = BmcSuccess <-> bmc_spec sy k_max = None).
+Proof. exact bmc_model3_is_spec. Qed.
+Print Assumptions C02_bmc_model3_is_spec.
+
+Theorem C02_bmc_model3_modes_agree :
+  forall (solver_sat : list cmd -> list expr -> list expr -> bool),
+    (forall sc asserts assumps,
+        solver_sat sc asserts assumps = true <-> exists sigma0, is_model sc asserts assumps sigma0) ->
+    forall (sy : sys) (nm : expr -> string),
+      sys_wf sy = true ->
+      names_ok (enc_new sy nm) = true -> init_deps_acyclic sy ->
+    forall (k_max : nat),
+      bmc_model3 solver_sat sy nm true k_max = bmc_model3 solver_sat sy nm false k_max.
+Proof. exact bmc_model3_modes. Qed.
+Print Assumptions C02_bmc_model3_modes_agree.
+
+Theorem C02_bmc_model3_no_missed_counterexample :
+  forall (solver_sat : list cmd -> list expr -> list expr -> bool),
+    (forall sc asserts assumps,
+        solver_sat sc asserts assumps = true <-> exists sigma0, is_model sc asserts assumps sigma0) ->
+    forall (sy : sys) (nm : expr -> string),
+      sys_wf sy = true ->
+      names_ok (enc_new sy nm) = true -> init_deps_acyclic sy ->
+    forall (k_max j : nat) (individually : bool),
+      (j <= k_max)%nat -> reach_at sy j ->
+      bmc_model3 solver_sat sy nm individually k_max <> BmcSuccess.
+Proof. exact bmc_model3_no_miss. Qed.
+Print Assumptions C02_bmc_model3_no_missed_counterexample.
